@@ -142,6 +142,9 @@ func genCase(t *rapid.T, thorough bool) Case {
 	}
 	base := gen.Tree(t, o)
 	n := rapid.IntRange(1, 5).Draw(t, "ntrees")
+	if rapid.IntRange(0, 19).Draw(t, "manytrees") == 0 {
+		n = rapid.IntRange(11, 25).Draw(t, "ntreesmany") // longer lists (more than 10 trees)
+	}
 	c.Trees = []*ref.Node{base}
 	sameTaxa := c.Chain == "newick-nexus" || c.Chain == "nexus-phyloxml" || (c.Chain == "single-multi" && c.Format == "nexus")
 	for i := 1; i < n; i++ {
